@@ -95,6 +95,15 @@ def time_text(rng, w=None, allow_ampm=True):
 def dur_text(rng):
     """(text, seconds)"""
     k = rng.random()
+    if k < 0.1:
+        # magnitudes around 2^31 and 2^32 seconds (68 and 136 years): the clock moves by the amount modulo 24 h whatever its size
+        u, n = rng.choice([("seconds", 2 ** 31 - 1), ("seconds", 2 ** 31), ("seconds", 2 ** 32 - 1), ("seconds", 2 ** 32),
+                           ("seconds", 2 ** 32 + 1), ("seconds", 5000000000), ("seconds", 2 ** 33 + 12345),
+                           ("hours", 1193046), ("hours", 1200000), ("weeks", 7101), ("weeks", 10000), ("days", 49711),
+                           ("days", 50000), ("years", 68), ("years", 69), ("years", 136), ("years", 137), ("years", 140),
+                           ("years", 1000), ("minutes", 71582789)])
+        per = 365 * 86400 if u == "years" else UNITS[u]
+        return "%d %s" % (n, u), n * per
     if k < 0.3:
         n = rng.choice([0, 1, 2, 12, 23, 24, 25, 47, 48, 49, rng.randint(0, 277)])
         return "%d %s" % (n, "hour" if n == 1 else "hours"), n * 3600
